@@ -58,6 +58,17 @@ def gen_cases(ctx):
                     ops.append((o[0], 1) + tuple(o[2:]))
                 cases.append(Case("%s_g%d_%d_%d_%d_h%d" % (ind, gi, pr[0], pr[1], pr[2], hi), ops, dump=(0, 1),
                                   meta={"ind": ind, "params": pr[:3], "hist_feeds": sum(1 for o in h if o[0] in "nbi")}))
+    # seed-independent: histories after which the accumulators coincide with those of a fresh instance (a running sum that cancels
+    # exactly, all zeros, a return to zero) while the window does not — a reset() that skips its work "when nothing needs clearing"
+    for ind in ALL:
+        for hi_, hv in enumerate(([2.0, 1.5, -1.5, -2.0], [3.0, -3.0], [0.0, 0.0, 0.0], [5.0, 0.0, -5.0], [1.0, -1.0, 1.0, -1.0], [7.0, -7.0, 0.0, 0.0], [4.0, 4.0, -8.0])):
+            for p_ in (2, 4):
+                pr = long_params(ind, p_)
+                mk = (lambda s_, x: ("b", s_, x, x, x, x, 1.0)) if ind in NO_SCALAR else (lambda s_, x: ("n", s_, x))
+                ops = [new_op(0, ind, pr)] + [mk(0, x) for x in hv] + [("d", 0), ("r", 0), ("d", 0), new_op(1, ind, pr)]
+                for x in (3.0, 4.0, 5.0, 1.0, 2.0, 6.0, 0.5):
+                    ops += [mk(0, x), mk(1, x)]
+                cases.append(Case("%s_cancel%d_p%d" % (ind, hi_, p_), ops, dump=(0, 1), meta={"ind": ind, "params": pr[:3], "hist_feeds": len(hv)}))
     # seed-independent long lives before the reset: 2^10 - 3, 2^12 - 3 and 2^16 - 3 inputs (a maintenance counter that reset() forgets
     # fires during the warm-up of the new life), period 10; the longest on the implementation only
     for ind in ALL:
